@@ -104,6 +104,26 @@ def build(tier="quick", must_fail=False, shard=None):
         if missing:
             g.raw("pub proof fn %s_snapshot_kinds() ensures false /* kinds of the O4 snapshot without an arm: %s */ {}" % (short, ", ".join(missing)))
     g.n_arms = n_arms
+    # C17: the parameters additional_operands reports (lifted on every run, exact kinds and quantifiers) equal the O4 snapshot
+    if shard in (None, "caps") and not must_fail:
+        from .lift_reflect import lift
+        psnap = json.load(open(os.path.join(os.path.dirname(SNAPSHOT), "reflect_params_snapshot.json")))
+        enums_now, masks_now = lift()
+        now = {"enums": {K: {e: [list(x) for x in ops] for e, ops in t.items()} for K, t in enums_now.items()},
+               "masks": {K: [[list(fl), [list(x) for x in ops]] for fl, ops in gs] for K, gs in masks_now.items()}}
+        for cat in ("enums", "masks"):
+            for K in sorted(set(psnap[cat]) | set(now[cat])):
+                a, b = now[cat].get(K), psnap[cat].get(K)
+                if a == b:
+                    why = "true"
+                else:
+                    if cat == "enums" and a is not None and b is not None:
+                        diff = [e for e in sorted(set(a) | set(b)) if a.get(e) != b.get(e)][:4]
+                    else:
+                        diff = ["whole kind"]
+                    why = "false /* additional_operands differs from the O4 snapshot for: %s */" % ", ".join(diff)
+                g.raw("pub proof fn params_snapshot_%s() ensures %s {}" % (K, why))
+                g.contract_clauses += 1
     g.raw("} // mod dr")
     g.raw("} // verus!")
     g.raw("fn main() {}")
@@ -122,6 +142,29 @@ def witness(failure, ctx):
     Operand::required_capabilities / required_extensions, compared with the O4 snapshot (generated program)"""
     from .common import SPIRV, enum_variants
     from .kani_masks import mask_decls
+    pm = re.search(r"params_snapshot_(\w+)", failure.get("item") or "")
+    if pm:
+        # the real additional_operands() of every enumerant of the kind, compared (exact kinds and quantifiers) with the O4 snapshot
+        K = pm.group(1)
+        psnap = json.load(open(os.path.join(os.path.dirname(SNAPSHOT), "reflect_params_snapshot.json")))
+        if K not in psnap["enums"]:
+            return {"found": False, "exhaustive": False, "how": "mask kinds: see reflect_sweep"}
+        prog = ("// generated by /verif/units/operand_caps.py\n#![allow(unused)]\nuse rspirv::dr::Operand;\nuse rspirv::spirv;\nfn main() {\n"
+                "    for x in 0u32..=70000 { if let Some(v) = spirv::%s::from_u32(x) {\n"
+                "        let ops: Vec<String> = Operand::%s(v).additional_operands().iter().map(|l| format!(\"{:?}:{:?}\", l.kind, l.quantifier)).collect();\n"
+                "        println!(\"{:?} {}\", v, ops.join(\",\")); } }\n}\n" % (K, K))
+        p, err = ctx["vgen"]("params_witness", prog, [])
+        if p is None:
+            return {"found": False, "error": err}
+        mm = []
+        for line in p.stdout.splitlines():
+            parts = line.split(" ", 1)
+            name, got = parts[0], (parts[1].strip() if len(parts) > 1 else "")
+            want = ",".join("%s:%s" % (k, q) for k, q in psnap["enums"][K].get(name, []))
+            if got != want:
+                mm.append("%s::%s reports [%s], the snapshot lists [%s]" % (K, name, got, want))
+        return {"found": bool(mm), "exhaustive": True, "input": mm[:6],
+                "how": "generated program: Operand::%s(v).additional_operands() for every enumerant on the real crate vs the O4 snapshot" % K}
     m = re.match(r"dr::(caps|exts)_arm_(\w+)$", (failure.get("item") or "").replace("lemma::", "dr::"))
     if not m:
         m = re.search(r"(caps|exts)_arm_(\w+)", failure.get("item") or "")
